@@ -794,6 +794,9 @@ func (f *Func) errCalls() (tested []Site, unbound []Site) {
 		if !ok {
 			return false
 		}
+		if ftv, isT := info.Types[call.Fun]; isT && ftv.IsType() {
+			return false // a conversion, not a call
+		}
 		// building an error value is not a step that can fail
 		if fn, isFn := calleeObj(info, call).(*types.Func); isFn {
 			full := fn.Name()
